@@ -433,6 +433,19 @@ struct Exec
     const std::string& k = op.kind;
     Rng r(hstr(k) ^ (uint64_t)(op.I(9, 0) * 7919 + idx * 104729 + 12345));
     ctx->begin(idx, k);
+    if (getenv("SIMKIT_DEBUG_C07"))
+      for (auto& s : pool)
+      {
+        // debugging aid for replays: columns (name, locator) of every Db before each op
+        std::string l = "dbg before " + k + ":";
+        for (int ic = 0; s.db && ic < s.db->getColumnNumber(); ic++)
+        {
+          ELoc t; int rk;
+          s.db->getLocatorByColIdx(ic, &t, &rk);
+          l += " [" + std::to_string(s.db->getUIDByColIdx(ic)) + "]" + s.db->getNameByColIdx(ic) + ":" + std::string(t.getKey()) + std::to_string(rk);
+        }
+        ctx->line(l);
+      }
     bool illformed = false;
 
     if (k == "new")
@@ -882,6 +895,9 @@ struct Exec
           if (u.size() != uids.size()) { ctx->end(idx, "skip-dup"); return true; }
         }
         if (t == ELoc::SEL.getValue()) t = ELoc::W.getValue();
+        // names are patterns: one that also designates another column expands to several columns (documented): premise
+        if (k == "setlocs")
+          for (auto& nm : names) if (nm != "nosuch" && ambiguous(m, nm)) { ctx->end(idx, "skip-ambiguous"); return true; }
         if (k == "setlocs") db->setLocators(names, LT(t), rank, clean);
         else if (k == "setlocsuidv") db->setLocatorsByUID(vu, LT(t), rank, clean);
         else if (k == "setlocscol") db->setLocatorsByColIdx(vc, LT(t), rank, clean);
